@@ -99,5 +99,8 @@ func init() {
 		seed("C10", "C10-r5-3", "R10.3", "End is the cursor position"),
 		seed("C11", "C11-r5-4", "R11.6", "advances in every iteration"),
 		seed("C15", "C15-r5-1", "R15.6", "is passed on every path behind the comment"),
+		// the one change of round 1 that stayed undetected until R6.7 was written
+		seed("C06", "C06-1", "R6.7", "is followed by an indent request"),
+		seed("C14", "C14-r5-4", "R14.9", "does not read the previous configuration"),
 	)
 }
